@@ -16,6 +16,8 @@ func init() {
 	Families["fastpathsnap"] = famFastPathSnap
 	Families["snapcfgterm"] = famSnapCfgTerm
 	Families["restorestale"] = famRestoreStale
+	Families["restorefresh"] = famRestoreFresh
+	Families["replaceleader"] = famReplaceLeader
 }
 
 func othersOf(opt Options, a string) []string {
@@ -474,6 +476,128 @@ func famRestoreStale(t *testing.T, seed int64, steps int) *Cluster {
 		c.Settle("client")
 	}
 	c.Drive(200*time.Millisecond, nil, nil)
+	c.converge(600 * time.Millisecond)
+	return c
+}
+
+// famRestoreFresh (C07, C20): a server wins an election and is cut off before its no-op reaches anybody; it is given a
+// user Restore (which needs no acknowledgement) and then a membership change. Nothing of its term is committed: the
+// change has to wait (and fails when the lease runs out).
+func famRestoreFresh(t *testing.T, seed int64, steps int) *Cluster {
+	opt := DefaultOptions(seed)
+	opt.Family = "restorefresh"
+	opt.Servers = []string{"n1", "n2", "n3", "n4"}
+	opt.Initial = map[string]string{"n1": "V", "n2": "V", "n3": "V"}
+	opt.Lease = 40 * time.Millisecond
+	opt.Mono = seed%4 == 3
+	c := NewCluster(t, opt)
+	c.Bootstrap()
+	c.StartAll()
+	A := c.WaitLeader(2 * time.Second)
+	if A == "" {
+		return c
+	}
+	var fs []string
+	for _, id := range []string{"n1", "n2", "n3"} {
+		if id != A {
+			fs = append(fs, id)
+		}
+	}
+	B := fs[int(seed)%2]
+	c.Apply(A, 0)
+	c.Settle("client")
+	c.Drive(80*time.Millisecond, nil, nil)
+	if c.Leader() != A {
+		c.converge(500 * time.Millisecond)
+		return c
+	}
+	// leadership moves to B; nothing B sends as leader arrives
+	c.Transfer(A, B)
+	c.Settle("client")
+	quietB := func(r *Rpc) bool { return !(r.Src == B && (r.Kind == "ae" || r.Kind == "hb" || r.Kind == "is")) }
+	ok := c.Drive(6*opt.Election, quietB, func() bool { return c.byID[B].Raft.State() == raft.Leader })
+	if ok {
+		c.isolate(B)
+		c.dropPendingFrom(B)
+		rop := c.UserRestore(B, []string{"r1"}, uint64(seed%2)*2, 1, 0)
+		c.Settle("client")
+		c.Drive(10*time.Millisecond, nil, func() bool { return rop != nil && rop.Done })
+		cmd := []string{"addnonvoter", "addvoter", "demote"}[int(seed/2)%3]
+		tgt := "n4"
+		if cmd == "demote" {
+			tgt = A
+		}
+		c.Member(B, cmd, tgt, 0, 0)
+		c.Settle("client")
+		c.Drive(4*opt.Lease, nil, nil)
+	}
+	c.healAll()
+	c.Drive(300*time.Millisecond, nil, nil)
+	c.convergeNoExpect(600 * time.Millisecond)
+	return c
+}
+
+// famReplaceLeader (C12): a member lags (cut off) while a new voter is added and leadership moves to that new voter.
+// The lagging member's own configuration does not contain its new leader; once reachable it must still be caught up.
+func famReplaceLeader(t *testing.T, seed int64, steps int) *Cluster {
+	opt := DefaultOptions(seed)
+	opt.Family = "replaceleader"
+	opt.Servers = []string{"n1", "n2", "n3", "n4"}
+	opt.Initial = map[string]string{"n1": "V", "n2": "V", "n3": "V"}
+	opt.HBFast = seed%4 == 3
+	opt.Trailing = uint64(seed % 3)
+	c := NewCluster(t, opt)
+	c.Bootstrap()
+	c.StartAll()
+	A := c.WaitLeader(2 * time.Second)
+	if A == "" {
+		return c
+	}
+	var fs []string
+	for _, id := range []string{"n1", "n2", "n3"} {
+		if id != A {
+			fs = append(fs, id)
+		}
+	}
+	C := fs[int(seed)%2]
+	c.Apply(A, 0)
+	c.Settle("client")
+	c.Drive(80*time.Millisecond, nil, nil)
+	if c.Leader() != A {
+		c.converge(500 * time.Millisecond)
+		return c
+	}
+	c.isolate(C)
+	c.Start("n4")
+	c.Settle("restart")
+	mop := c.Member(A, "addvoter", "n4", 0, 0)
+	c.Settle("client")
+	c.Drive(600*time.Millisecond, nil, func() bool { return mop != nil && mop.Done })
+	for i := 0; i < 1+int(seed%3); i++ {
+		c.Apply(A, 0)
+		c.Settle("client")
+	}
+	c.Drive(100*time.Millisecond, nil, nil)
+	if seed%3 == 1 {
+		sop := c.UserSnapshot(A)
+		c.Settle("client")
+		c.Drive(100*time.Millisecond, nil, func() bool { return sop != nil && sop.Done })
+	}
+	if c.Leader() == A {
+		c.Transfer(A, "n4")
+		c.Settle("client")
+		c.Drive(6*opt.Election, nil, func() bool {
+			return c.byID["n4"].Raft.State() == raft.Leader && c.byID["n4"].Raft.CommitIndex() >= c.byID["n4"].Raft.LastIndex()
+		})
+	}
+	if seed%2 == 1 && c.Leader() == "n4" {
+		// the old leader goes away for good: only the new servers can bring C up to date
+		c.Crash(A)
+		c.Settle("crash")
+		c.Opt.KeepMinorityDown = true
+	}
+	c.healAll()
+	c.Drive(300*time.Millisecond, nil, nil)
 	c.converge(600 * time.Millisecond)
 	return c
 }
